@@ -36,7 +36,7 @@ package dagordering
 //@ spec wok(w *event) bool = w != nil && w.event != nil
 //@ // buffer invariant: callbacks present; every buffered value is a well-formed wrapper;
 //@ // a wrapper that was processed has been reported released; Released was called at most once per wrapper, and only for released ones
-//@ inv EventsBuffer bufinv(buf): buf != nil && buf.incompletes != nil && cinv(buf.incompletes.lru) && buf.callback.Process != nil && buf.callback.Get != nil && buf.callback.Exists != nil &&
+//@ inv EventsBuffer bufinv(buf): buf != nil && buf.incompletes != nil && lruinv(buf.incompletes.lru) && buf.callback.Process != nil && buf.callback.Get != nil && buf.callback.Exists != nil &&
 //@   forall(k interface{}, inbuf(buf, k) ==> typeis(bufval(buf, k), "*event") && wok(unbox(bufval(buf, k), "*event"))) &&
 //@   forall(w *event, gProcessed[w] ==> w.released) &&
 //@   forall(w *event, 0 <= gRelCnt[w] && gRelCnt[w] <= 1 && (gRelCnt[w] == 1 ==> w.released))
